@@ -30,7 +30,7 @@ fn roundtrip_strategy(max_keys: usize, max_versions: usize, big: bool, prog_len:
         .boxed()
 }
 
-fn model_load(entries: &[Entry], key: &[u8], ts: u64) -> (Option<Vec<u8>>, bool) {
+pub(crate) fn model_load(entries: &[Entry], key: &[u8], ts: u64) -> (Option<Vec<u8>>, bool) {
     // entries sorted by key asc, timestamp desc: the first match is the newest not newer than ts
     for e in entries.iter() {
         if e.0.as_slice() == key && e.1 <= ts {
@@ -40,7 +40,7 @@ fn model_load(entries: &[Entry], key: &[u8], ts: u64) -> (Option<Vec<u8>>, bool)
     (None, false)
 }
 
-fn lookup_targets(t: &Table) -> Vec<Vec<u8>> {
+pub(crate) fn lookup_targets(t: &Table) -> Vec<Vec<u8>> {
     let mut targets: Vec<Vec<u8>> = vec![];
     for k in gens::universe(t.family, 30) {
         targets.extend(gens::neighbours(&k));
@@ -50,7 +50,7 @@ fn lookup_targets(t: &Table) -> Vec<Vec<u8>> {
     targets
 }
 
-fn walk_forward<C: Cursor>(c: &mut C) -> Result<Vec<Entry>, String> {
+pub(crate) fn walk_forward<C: Cursor>(c: &mut C) -> Result<Vec<Entry>, String> {
     c.seek_to_first().map_err(|e| format!("{e:?}"))?;
     let mut out = vec![];
     loop {
@@ -65,7 +65,7 @@ fn walk_forward<C: Cursor>(c: &mut C) -> Result<Vec<Entry>, String> {
     }
 }
 
-fn walk_backward<C: Cursor>(c: &mut C) -> Result<Vec<Entry>, String> {
+pub(crate) fn walk_backward<C: Cursor>(c: &mut C) -> Result<Vec<Entry>, String> {
     c.seek_to_last().map_err(|e| format!("{e:?}"))?;
     let mut out = vec![];
     loop {
@@ -101,6 +101,96 @@ fn classify(o: &mut Outcome, c: &RoundTripCase) {
     if c.opts.pairs_ri == 1 || c.opts.bytes_ri == 1 {
         o.label("restart-interval-1");
     }
+}
+
+/// Everything the property says about one sealed sst file holding exactly `entries`: the cursor
+/// program against the reference cursor, full forward and backward walks, timestamped point
+/// lookups (generated ones over `targets`, every present key at u64::MAX, and every key of
+/// `absent_or_present` at a few timestamps), metadata (setsum, file size, first / last key,
+/// smallest / biggest timestamp), and re-opening the file.  Signatures are prefixed with `what`.
+#[allow(clippy::too_many_arguments)]
+pub(crate) fn check_sealed_sst(
+    what: &str,
+    table: &sst::Sst,
+    path: &std::path::Path,
+    entries: &[Entry],
+    prog: &[CursorOp],
+    loads: &[(u16, u64)],
+    targets: &[Vec<u8>],
+    more_keys: &[Vec<u8>],
+) -> Result<(), (String, String)> {
+    let sig = |s: &str| format!("{what}:{s}");
+    let file_len = std::fs::metadata(path).map(|m| m.len()).unwrap_or(0);
+    if !prog.is_empty() {
+        let mut cur = table.cursor();
+        let mut reference = RefCursor::new(entries.to_vec());
+        tables::compare_program(what, &mut cur, &mut reference, prog)?;
+    }
+    match walk_forward(&mut table.cursor()) {
+        Ok(got) if got == *entries => {}
+        Ok(got) => return Err((sig("forward-walk"), format!("forward enumeration returned {} entries, expected {}", got.len(), entries.len()))),
+        Err(e) => return Err((sig("forward-walk-error"), e)),
+    }
+    match walk_backward(&mut table.cursor()) {
+        Ok(got) if got == *entries => {}
+        Ok(got) => return Err((sig("backward-walk"), format!("backward enumeration returned {} entries, expected {}", got.len(), entries.len()))),
+        Err(e) => return Err((sig("backward-walk-error"), e)),
+    }
+    let load = |key: &[u8], ts: u64| -> Result<(), (String, String)> {
+        let mut tomb = false;
+        let v = table.load(key, ts, &mut tomb).map_err(|e| (sig("load-error"), format!("load failed: {e:?}")))?;
+        let (mv, mt) = model_load(entries, key, ts);
+        if v != mv || tomb != mt {
+            return Err((sig("load"), format!("load({}, {}) = ({:?} bytes, tombstone={}) but the model says ({:?} bytes, tombstone={})", gens::show(key), ts, v.map(|v| v.len()), tomb, mv.map(|v| v.len()), mt)));
+        }
+        Ok(())
+    };
+    if !targets.is_empty() {
+        for (ks, ts) in loads.iter() {
+            load(&targets[gens::sel(*ks, targets.len())], *ts)?;
+        }
+    }
+    // every present key must be found at u64::MAX (no bloom false negative)
+    for k in tables::keys_of(entries) {
+        load(&k, u64::MAX)?;
+    }
+    for k in more_keys.iter() {
+        for ts in [u64::MAX, 0, 20] {
+            load(k, ts)?;
+        }
+    }
+    // metadata describes exactly the contents
+    let md = table.metadata().map_err(|e| (sig("metadata-error"), format!("{e:?}")))?;
+    let mut setsum = sst::Setsum::default();
+    for (k, t, v) in entries.iter() {
+        match v {
+            Some(v) => setsum.put(k, *t, v),
+            None => setsum.del(k, *t),
+        }
+    }
+    if md.setsum != setsum.digest() || table.fast_setsum() != setsum {
+        return Err((sig("metadata-setsum"), "metadata setsum differs from the setsum recomputed from the entries".into()));
+    }
+    if md.file_size != file_len {
+        return Err((sig("metadata-file-size"), format!("metadata file_size {} != file length {}", md.file_size, file_len)));
+    }
+    if let (Some(first), Some(last)) = (entries.first(), entries.last()) {
+        if md.first_key != first.0 || md.last_key != last.0 {
+            return Err((sig("metadata-keys"), format!("metadata first/last key {} / {} != {} / {}", gens::show(&md.first_key), gens::show(&md.last_key), gens::show(&first.0), gens::show(&last.0))));
+        }
+        let lo = entries.iter().map(|e| e.1).min().unwrap();
+        let hi = entries.iter().map(|e| e.1).max().unwrap();
+        if md.smallest_timestamp != lo || md.biggest_timestamp != hi {
+            return Err((sig("metadata-timestamps"), format!("metadata timestamps {}..{} != {}..{}", md.smallest_timestamp, md.biggest_timestamp, lo, hi)));
+        }
+    }
+    // re-opening the file gives the same table
+    let again = sst::Sst::<sst::file_manager::FileHandle>::new(sst::SstOptions::default(), path).map_err(|e| (sig("reopen-error"), format!("{e:?}")))?;
+    match walk_forward(&mut again.cursor()) {
+        Ok(got) if got == *entries => {}
+        _ => return Err((sig("reopen-differs"), "re-opened table enumerates differently".into())),
+    }
+    Ok(())
 }
 
 /////////////////////////////////////////////// block //////////////////////////////////////////////
@@ -208,79 +298,14 @@ impl Property for SstRoundTrip {
                 return o;
             }
         };
-        let file_len = std::fs::metadata(&path).map(|m| m.len()).unwrap_or(0);
-        let res = (|| -> Result<(), (String, String)> {
-            let payload: usize = entries.iter().map(|e| e.0.len() + e.2.as_ref().map(|v| v.len()).unwrap_or(0) + 12).sum();
-            let multi_block = payload > 2 * c.opts.block_size.max(4096) as usize;
-            if multi_block {
-                o.label("multi-block");
-            }
-            o.nontrivial = multi_block && entries.windows(2).any(|w| w[0].0 == w[1].0);
-            let mut cur = table.cursor();
-            let mut reference = RefCursor::new(entries.clone());
-            tables::compare_program("sst", &mut cur, &mut reference, &c.prog)?;
-            match walk_forward(&mut table.cursor()) {
-                Ok(got) if got == *entries => {}
-                Ok(got) => return Err(("sst:forward-walk".into(), format!("forward enumeration returned {} entries, expected {}", got.len(), entries.len()))),
-                Err(e) => return Err(("sst:forward-walk-error".into(), e)),
-            }
-            match walk_backward(&mut table.cursor()) {
-                Ok(got) if got == *entries => {}
-                Ok(got) => return Err(("sst:backward-walk".into(), format!("backward enumeration returned {} entries, expected {}", got.len(), entries.len()))),
-                Err(e) => return Err(("sst:backward-walk-error".into(), e)),
-            }
-            let targets = lookup_targets(&c.table);
-            for (ks, ts) in c.loads.iter() {
-                let key = &targets[gens::sel(*ks, targets.len())];
-                let mut tomb = false;
-                let v = table.load(key, *ts, &mut tomb).map_err(|e| ("sst:load-error".to_string(), format!("load failed: {e:?}")))?;
-                let (mv, mt) = model_load(entries, key, *ts);
-                if v != mv || tomb != mt {
-                    return Err(("sst:load".into(), format!("load({}, {}) = ({:?} bytes, tombstone={}) but the model says ({:?} bytes, tombstone={})", gens::show(key), ts, v.map(|v| v.len()), tomb, mv.map(|v| v.len()), mt)));
-                }
-            }
-            // every present key must be found at u64::MAX (no bloom false negative)
-            for k in tables::keys_of(entries) {
-                let mut tomb = false;
-                let v = table.load(&k, u64::MAX, &mut tomb).map_err(|e| ("sst:load-error".to_string(), format!("load failed: {e:?}")))?;
-                let (mv, mt) = model_load(entries, &k, u64::MAX);
-                if v != mv || tomb != mt {
-                    return Err(("sst:load".into(), format!("load({}, MAX) disagrees with the model", gens::show(&k))));
-                }
-            }
-            // metadata describes exactly the contents
-            let md = table.metadata().map_err(|e| ("sst:metadata-error".to_string(), format!("{e:?}")))?;
-            let mut setsum = sst::Setsum::default();
-            for (k, t, v) in entries.iter() {
-                match v {
-                    Some(v) => setsum.put(k, *t, v),
-                    None => setsum.del(k, *t),
-                }
-            }
-            if md.setsum != setsum.digest() || table.fast_setsum() != setsum {
-                return Err(("sst:metadata-setsum".into(), "metadata setsum differs from the setsum recomputed from the entries".into()));
-            }
-            if md.file_size != file_len {
-                return Err(("sst:metadata-file-size".into(), format!("metadata file_size {} != file length {}", md.file_size, file_len)));
-            }
-            if let (Some(first), Some(last)) = (entries.first(), entries.last()) {
-                if md.first_key != first.0 || md.last_key != last.0 {
-                    return Err(("sst:metadata-keys".into(), format!("metadata first/last key {} / {} != {} / {}", gens::show(&md.first_key), gens::show(&md.last_key), gens::show(&first.0), gens::show(&last.0))));
-                }
-                let lo = entries.iter().map(|e| e.1).min().unwrap();
-                let hi = entries.iter().map(|e| e.1).max().unwrap();
-                if md.smallest_timestamp != lo || md.biggest_timestamp != hi {
-                    return Err(("sst:metadata-timestamps".into(), format!("metadata timestamps {}..{} != {}..{}", md.smallest_timestamp, md.biggest_timestamp, lo, hi)));
-                }
-            }
-            // re-opening the file gives the same table
-            let again = sst::Sst::<sst::file_manager::FileHandle>::new(tables::sst_options(&c.opts), &path).map_err(|e| ("sst:reopen-error".to_string(), format!("{e:?}")))?;
-            match walk_forward(&mut again.cursor()) {
-                Ok(got) if got == *entries => {}
-                _ => return Err(("sst:reopen-differs".into(), "re-opened table enumerates differently".into())),
-            }
-            Ok(())
-        })();
+        let payload: usize = entries.iter().map(|e| e.0.len() + e.2.as_ref().map(|v| v.len()).unwrap_or(0) + 12).sum();
+        let multi_block = payload > 2 * c.opts.block_size.max(4096) as usize;
+        if multi_block {
+            o.label("multi-block");
+        }
+        o.nontrivial = multi_block && entries.windows(2).any(|w| w[0].0 == w[1].0);
+        let targets = lookup_targets(&c.table);
+        let res = check_sealed_sst("sst", &table, &path, entries, &c.prog, &c.loads, &targets, &[]);
         let _ = std::fs::remove_file(&path);
         if let Err((sig, msg)) = res {
             o.fail(sig, msg);
@@ -310,6 +335,65 @@ pub struct RejectCase {
     /// (position selector, kind): injected after that many accepted entries
     pub bad: Vec<(u16, Bad)>,
     pub use_sst: bool,
+    /// per injection: offer through the other entry point (put <-> del) where the kind allows it
+    #[serde(default)]
+    pub flip: Vec<bool>,
+}
+
+/// One invalid offer, built so that exactly one thing is wrong with it.
+pub(crate) struct BadOffer {
+    pub key: Vec<u8>,
+    pub ts: u64,
+    pub value: Option<Vec<u8>>,
+    /// the documented error code
+    pub want: &'static str,
+    /// true for sort-order violations, false for size violations
+    pub order: bool,
+}
+
+/// The invalid offer of `kind` relative to the last accepted entry; `flip` sends it through the
+/// other entry point (put <-> del).  None where the kind is not applicable.
+pub(crate) fn bad_offer(kind: &Bad, flip: bool, last: Option<&Entry>) -> Option<BadOffer> {
+    match (kind, last) {
+        (Bad::Equal, Some(l)) => {
+            let value = match (&l.2, flip) {
+                (v, false) => v.clone(),
+                (Some(_), true) => None,
+                (None, true) => Some(b"x".to_vec()),
+            };
+            Some(BadOffer { key: l.0.clone(), ts: l.1, value, want: sst::CODE_SORT_ORDER, order: true })
+        }
+        (Bad::NewerTimestamp, Some(l)) if l.1 < u64::MAX => Some(BadOffer { key: l.0.clone(), ts: l.1 + 1, value: if flip { None } else { Some(b"x".to_vec()) }, want: sst::CODE_SORT_ORDER, order: true }),
+        (Bad::SmallerKey, Some(l)) if !l.0.is_empty() => Some(BadOffer { key: l.0[..l.0.len() - 1].to_vec(), ts: 5, value: if flip { Some(b"y".to_vec()) } else { None }, want: sst::CODE_SORT_ORDER, order: true }),
+        (Bad::OversizeKey, _) => {
+            // in order (the last key is a proper prefix), so that only the size is at fault
+            let mut key = last.map(|l| l.0.clone()).unwrap_or_default();
+            if key.len() > sst::MAX_KEY_LEN {
+                return None;
+            }
+            key.resize(sst::MAX_KEY_LEN + 1, b'K');
+            Some(BadOffer { key, ts: 1, value: if flip { None } else { Some(b"v".to_vec()) }, want: sst::CODE_KEY_TOO_LARGE, order: false })
+        }
+        (Bad::OversizeValue, _) => {
+            // a key that would be in order, so that only the size is at fault
+            let key = last.map(|l| { let mut k = l.0.clone(); k.push(0x7f); k }).unwrap_or_else(|| vec![0u8]);
+            if key.len() > sst::MAX_KEY_LEN {
+                return None;
+            }
+            Some(BadOffer { key, ts: 1, value: Some(vec![b'V'; sst::MAX_VALUE_LEN + 1]), want: sst::CODE_VALUE_TOO_LARGE, order: false })
+        }
+        _ => None,
+    }
+}
+
+pub(crate) fn bad_strategy() -> impl Strategy<Value = Bad> {
+    prop_oneof![
+        3 => Just(Bad::Equal),
+        3 => Just(Bad::NewerTimestamp),
+        3 => Just(Bad::SmallerKey),
+        1 => Just(Bad::OversizeKey),
+        1 => Just(Bad::OversizeValue),
+    ]
 }
 
 pub struct Rejects;
@@ -323,15 +407,8 @@ impl Property for Rejects {
         tier.pick(12_000, 300_000)
     }
     fn strategy(&self, _: &Ctx) -> BoxedStrategy<RejectCase> {
-        let bad = prop_oneof![
-            3 => Just(Bad::Equal),
-            3 => Just(Bad::NewerTimestamp),
-            3 => Just(Bad::SmallerKey),
-            1 => Just(Bad::OversizeKey),
-            1 => Just(Bad::OversizeValue),
-        ];
-        (tables::table(10, 4, false), tables::build_opts(), prop::collection::vec((any::<u16>(), bad), 1..5), any::<bool>())
-            .prop_map(|(table, opts, bad, use_sst)| RejectCase { table, opts, bad, use_sst })
+        (tables::table(10, 4, false), tables::build_opts(), prop::collection::vec((any::<u16>(), bad_strategy(), any::<bool>()), 1..5), any::<bool>())
+            .prop_map(|(table, opts, bad, use_sst)| RejectCase { table, opts, flip: bad.iter().map(|b| b.2).collect(), bad: bad.into_iter().map(|b| (b.0, b.1)).collect(), use_sst })
             .boxed()
     }
     fn run(&self, ctx: &Ctx, c: &RejectCase) -> Outcome {
@@ -340,6 +417,7 @@ impl Property for Rejects {
         o.nontrivial = entries.len() >= 2;
         o.label(if c.use_sst { "sst-builder" } else { "block-builder" });
         let path = ctx.scratch.join("c10-reject.sst");
+        let twin_path = ctx.scratch.join("c10-reject-twin.sst");
         let _ = std::fs::remove_file(&path);
         enum B {
             Block(sst::block::BlockBuilder),
@@ -364,42 +442,41 @@ impl Property for Rejects {
                 (B::Sst(b), None) => b.del(k, t),
             }
         }
-        let mut injections: Vec<(usize, &Bad)> = c.bad.iter().map(|(s, k)| (gens::sel(*s, entries.len() + 1), k)).collect();
+        fn size(b: &B) -> usize {
+            match b {
+                B::Block(b) => b.approximate_size(),
+                B::Sst(b) => b.approximate_size(),
+            }
+        }
+        let mut injections: Vec<(usize, &Bad, bool)> = c.bad.iter().enumerate().map(|(j, (s, k))| (gens::sel(*s, entries.len() + 1), k, c.flip.get(j).copied().unwrap_or(false))).collect();
         injections.sort_by_key(|x| x.0);
-        let big_key = vec![b'K'; sst::MAX_KEY_LEN + 1];
-        let big_val = vec![b'V'; sst::MAX_VALUE_LEN + 1];
+        let mut refused_keys: Vec<Vec<u8>> = vec![];
         for i in 0..=entries.len() {
-            for (_, kind) in injections.iter().filter(|(p, _)| *p == i) {
+            for (_, kind, flip) in injections.iter().filter(|(p, _, _)| *p == i) {
                 let last = if i > 0 { Some(&entries[i - 1]) } else { None };
-                let (res, want): (Option<Result<(), handled::SError>>, &str) = match (kind, last) {
-                    (Bad::Equal, Some(l)) => (Some(offer(&mut b, &l.0, l.1, l.2.as_deref())), sst::CODE_SORT_ORDER),
-                    (Bad::NewerTimestamp, Some(l)) if l.1 < u64::MAX => (Some(offer(&mut b, &l.0, l.1 + 1, Some(b"x"))), sst::CODE_SORT_ORDER),
-                    (Bad::SmallerKey, Some(l)) if !l.0.is_empty() => {
-                        let k = &l.0[..l.0.len() - 1];
-                        (Some(offer(&mut b, k, 5, None)), sst::CODE_SORT_ORDER)
-                    }
-                    (Bad::OversizeKey, _) => (Some(offer(&mut b, &big_key, 1, Some(b"v"))), sst::CODE_KEY_TOO_LARGE),
-                    (Bad::OversizeValue, _) => {
-                        // a key that would be in order, so that only the size is at fault
-                        let k = last.map(|l| { let mut k = l.0.clone(); k.push(0x7f); k }).unwrap_or_else(|| vec![0u8]);
-                        if k.len() > sst::MAX_KEY_LEN { (None, "") } else { (Some(offer(&mut b, &k, 1, Some(&big_val))), sst::CODE_VALUE_TOO_LARGE) }
-                    }
-                    _ => (None, ""),
-                };
-                match res {
-                    None => {}
-                    Some(Ok(())) => {
-                        o.fail(format!("reject:accepted:{kind:?}"), format!("builder accepted invalid input {kind:?} offered after {i} entries"));
+                let Some(bad) = bad_offer(kind, *flip, last) else { continue };
+                let via = if bad.value.is_some() { "put" } else { "del" };
+                let before = size(&b);
+                match offer(&mut b, &bad.key, bad.ts, bad.value.as_deref()) {
+                    Ok(()) => {
+                        o.fail(format!("reject:accepted:{kind:?}"), format!("builder accepted invalid input {kind:?} offered through {via} after {i} entries"));
                         return o;
                     }
-                    Some(Err(e)) => {
+                    Err(e) => {
                         o.label(format!("rejected:{kind:?}"));
-                        if sst::error_code(&e) != Some(want) {
-                            o.fail(format!("reject:wrong-code:{kind:?}"), format!("expected error code {want}, got {:?}", sst::error_code(&e)));
+                        o.label(format!("rejected:{kind:?}:via-{via}"));
+                        if sst::error_code(&e) != Some(bad.want) {
+                            o.fail(format!("reject:wrong-code:{kind:?}"), format!("expected error code {}, got {:?}", bad.want, sst::error_code(&e)));
                             return o;
                         }
                     }
                 }
+                // a refused entry leaves no trace: the builder's size is that of the accepted entries
+                if size(&b) != before {
+                    o.fail("reject:size-changed", format!("approximate_size went from {before} to {} on a refused {kind:?} ({via}) after {i} entries", size(&b)));
+                    return o;
+                }
+                refused_keys.push(bad.key);
             }
             if i < entries.len() {
                 let e = &entries[i];
@@ -409,15 +486,58 @@ impl Property for Rejects {
                 }
             }
         }
-        let got = match b {
-            B::Block(b) => b.seal().map_err(|e| format!("{e:?}")).and_then(|blk| walk_forward(&mut blk.cursor())),
-            B::Sst(b) => b.seal().map_err(|e| format!("{e:?}")).and_then(|t| walk_forward(&mut t.cursor())),
-        };
+        // The sealed table is the table of the accepted entries: contents, metadata, point lookups
+        // of present and of refused keys, and - byte for byte - the table a builder produces that
+        // was never offered the refused input.
+        let res = (|| -> Result<(), (String, String)> {
+            match b {
+                B::Block(b) => {
+                    let blk = b.seal().map_err(|e| ("reject:seal-or-walk-error".to_string(), format!("{e:?}")))?;
+                    match walk_forward(&mut blk.cursor()) {
+                        Ok(got) if got == *entries => {}
+                        Ok(got) => return Err(("reject:contents-differ".into(), format!("block built with rejected inputs interleaved holds {} entries, expected exactly the {} valid ones", got.len(), entries.len()))),
+                        Err(e) => return Err(("reject:seal-or-walk-error".into(), e)),
+                    }
+                    for k in refused_keys.iter().chain(tables::keys_of(entries).iter()) {
+                        for ts in [u64::MAX, 20, 0] {
+                            let mut tomb = false;
+                            let v = blk.load(k, ts, &mut tomb).map_err(|e| ("reject:load-error".to_string(), format!("{e:?}")))?;
+                            let (mv, mt) = model_load(entries, k, ts);
+                            if v != mv || tomb != mt {
+                                return Err(("reject:load".into(), format!("load({}, {ts}) on the block disagrees with the accepted entries", gens::show(k))));
+                            }
+                        }
+                    }
+                    let twin = tables::build_block(entries, c.opts.bytes_ri, c.opts.pairs_ri).map_err(|e| ("reject:twin-build-error".to_string(), format!("{e:?}")))?;
+                    if twin.as_bytes() != blk.as_bytes() {
+                        return Err(("reject:differs-from-twin".into(), "the block differs byte-wise from the block built from the accepted entries alone".into()));
+                    }
+                }
+                B::Sst(b) => {
+                    let table = b.seal().map_err(|e| ("reject:seal-or-walk-error".to_string(), format!("{e:?}")))?;
+                    match walk_forward(&mut table.cursor()) {
+                        Ok(got) if got == *entries => {}
+                        Ok(got) => return Err(("reject:contents-differ".into(), format!("table built with rejected inputs interleaved holds {} entries, expected exactly the {} valid ones", got.len(), entries.len()))),
+                        Err(e) => return Err(("reject:seal-or-walk-error".into(), e)),
+                    }
+                    check_sealed_sst("reject", &table, &path, entries, &[], &[], &[], &refused_keys)?;
+                    let twin = tables::build_sst(&twin_path, entries, &c.opts).map_err(|e| ("reject:twin-build-error".to_string(), format!("{e:?}")))?;
+                    if twin.approximate_size() != table.approximate_size() {
+                        return Err(("reject:differs-from-twin".into(), "the sealed table's in-memory size (index + bloom filter) differs from that of the table built from the accepted entries alone".into()));
+                    }
+                    let a = std::fs::read(&path).map_err(|e| ("reject:io".to_string(), e.to_string()))?;
+                    let t = std::fs::read(&twin_path).map_err(|e| ("reject:io".to_string(), e.to_string()))?;
+                    if a != t {
+                        return Err(("reject:differs-from-twin".into(), format!("the file ({} bytes) differs byte-wise from the file built from the accepted entries alone ({} bytes)", a.len(), t.len())));
+                    }
+                }
+            }
+            Ok(())
+        })();
         let _ = std::fs::remove_file(&path);
-        match got {
-            Ok(got) if got == *entries => {}
-            Ok(got) => o.fail("reject:contents-differ", format!("table built with rejected inputs interleaved holds {} entries, expected exactly the {} valid ones", got.len(), entries.len())),
-            Err(e) => o.fail("reject:seal-or-walk-error", e),
+        let _ = std::fs::remove_file(&twin_path);
+        if let Err((sig, msg)) = res {
+            o.fail(sig, msg);
         }
         o
     }
@@ -435,4 +555,6 @@ pub fn check() -> Check {
     .pbt(BlockRoundTrip)
     .pbt(SstRoundTrip)
     .pbt(Rejects)
+    .pbt(crate::c10ext::MultiRoundTrip)
+    .pbt(crate::c10ext::BoundarySizes)
 }
